@@ -49,7 +49,7 @@ type atlasRun struct {
 	KeyState    int // CLI level, with --encrypt: state of the key path (see atlasKeyStates); 0 = a fresh path
 	OutFaultAt  int
 	Window      bool
-	KeySupply   int // 0 flags; 1 environment; 2 public by flag, private by env; 3 the other way round
+	KeySupply   int // 0 flags; 1 environment; 2 public by flag, private by env; 3 the other way round; 4 flags spelled --flag=value; 5 public by env, private --flag=value
 	TmpForm     int // spelling of TMPDIR: 0 clean; 1 trailing slash; 2 "/./" inside; 3 "//" inside; 4 through a symbolic link
 	KillAt      int // CLI level: the process is killed when this request arrives (crash histories); 0 = never
 	Fl          Flags
@@ -179,7 +179,7 @@ func genAtlasRun(x *X, o atlasGenOpts) *atlasRun {
 		r.Hosts = append(r.Hosts, hostPlan{Name: names[i], Port: ports == 0 || (ports == 2 && i%2 == 0)})
 	}
 	if o.Supplies {
-		r.KeySupply = x.Free(4, "key supply")
+		r.KeySupply = x.Free(6, "key supply")
 	}
 	r.Window = x.Free(2, "window flags") == 1
 	r.TmpForm = o.TmpForm
@@ -571,14 +571,20 @@ func execAtlasCLI(c *Ctx, r *atlasRun, dir string) (*atlasObs, error) {
 	reqLog := filepath.Join(dir, "requests.jsonl")
 	args := []string{"redact", "--atlasProjectId", atlasProject, "--atlasClusterName", atlasCluster, "--outputFile", filepath.Join(outDir, "out.log")}
 	env := []string{"VERIF_MODE=child-cli", "VERIF_ATLAS_SCRIPT=" + scriptPath, "VERIF_ATLAS_LOG=" + reqLog}
-	if r.KeySupply == 0 || r.KeySupply == 2 {
+	switch {
+	case r.KeySupply == 0 || r.KeySupply == 2:
 		args = append(args, "--atlasPublicKey", atlasPub)
-	} else {
+	case r.KeySupply == 4:
+		args = append(args, "--atlasPublicKey="+atlasPub)
+	default:
 		env = append(env, "ATLAS_PUBLIC_KEY="+atlasPub)
 	}
-	if r.KeySupply == 0 || r.KeySupply == 3 {
+	switch {
+	case r.KeySupply == 0 || r.KeySupply == 3:
 		args = append(args, "--atlasPrivateKey", atlasPriv)
-	} else {
+	case r.KeySupply == 4 || r.KeySupply == 5:
+		args = append(args, "--atlasPrivateKey="+atlasPriv) // one argv element
+	default:
 		env = append(env, "ATLAS_PRIVATE_KEY="+atlasPriv)
 	}
 	if r.Window {
